@@ -685,19 +685,43 @@ PLANS.update({
 
 
 def replay_file(ctx, plan, path):
-    """Re-run one recorded case (bin/check <id> --replay <file>)."""
+    """Re-run one recorded case against /repo's current working tree (bin/check <id> --replay <file>)."""
     v = json.load(open(path))
-    line = v['case'].get('line')
+    case = v.get('case', {})
+    legacy = case.get('package') == 'v4'
+    before = ctx.violations
+    if v.get('kind') == 'trace-rejected':
+        # direction B: re-execute the recorded inputs, record the events again, validate them again
+        B_trace('replay', case['fam'], 0, mode='ordered' if ctx.prop == 'C05' else 'value', legacy=legacy, case=path)(ctx)
+        return 1 if ctx.violations > before else 0
+    if v.get('kind') == 'data-race':
+        print('a data race is a property of an execution: re-running the stage that reported it')
+        for stage in plan['quick']:
+            stage(ctx)
+        return 1 if ctx.violations > before else 0
+    line = case.get('line')
     if line is None:
         raise Broken('replay file has no line')
-    replay = ctx.build('replay')
-    rargs = [replay, '-prop', ctx.prop, '-seed', str(ctx.seed), '-replays', os.path.join(ctx.scratch, 'replays')]
-    if v['case'].get('spelling') == 'respelled':
+    race = ctx.prop == 'C10'
+    replay = ctx.build('replay', legacy=legacy, race=race)
+    rargs = [replay, '-prop', ctx.prop, '-seed', str(ctx.seed), '-findings', FINDINGS,
+             '-replays', os.path.join(ctx.scratch, 'replays'), '-workers', '1']
+    if case.get('spelling') == 'respelled':
         rargs.append('-respell')
+    if line.get('fam') == 'cli':
+        stage = os.path.join(ctx.scratch, 'v5stage')
+        cli = os.path.join(ctx.scratch, 'bin-json-patch')
+        subprocess.run(['go', 'build', '-o', cli, './cmd/json-patch'], cwd=stage, env=ctx.env, check=True)
+        rargs += ['-opt', 'cli=%s,tmp=%s' % (cli, ctx.scratch)]
     p = subprocess.run(rargs, input=json.dumps(line) + '\n', capture_output=True, text=True, env=ctx.env)
     print(p.stdout)
+    if p.returncode == 2 and re.search(r'^fatal error: |^runtime: goroutine stack exceeds', p.stderr, re.M):
+        print('VIOLATION property=%s replay=%s' % (ctx.prop, path))
+        print('  kind=crash ' + re.search(r'^(fatal error: .*|runtime: goroutine stack exceeds.*)$', p.stderr, re.M).group(1))
+        return 1
+    if p.returncode not in (0, 1):
+        raise Broken('the replayer failed: ' + p.stderr[-1500:])
     return 1 if 'VIOLATION' in p.stdout else 0
-
 
 # ---------------------------------------------------------------------------------------------
 # direction B stages: traces recorded from the real code, validated by TLC against spec/TraceApi.tla
